@@ -317,7 +317,12 @@ fn gen_scalar(rng: &mut Rng, counter: &mut usize, sentinels: bool) -> Value {
 fn gen_key(rng: &mut Rng, cfg: &GenCfg, counter: &mut usize) -> String {
     if cfg.sentinels {
         *counter += 1;
-        return format!("KEY*{}*", counter);
+        // sentinel names, a quarter of them with characters that need JSON-pointer escaping
+        return match rng.below(8) {
+            0 => format!("KEY/*{}*", counter),
+            1 => format!("KEY~*{}*", counter),
+            _ => format!("KEY*{}*", counter),
+        };
     }
     if cfg.unsafe_keys && rng.chance(1, 3) {
         rng.pick(UNSAFE_KEYS).to_string()
